@@ -22,7 +22,9 @@ func init() {
 // map/filter results, nestings
 func allocExpr(g *egen, d int) string {
 	rng := g.rng
-	small := func() string { return g.pick("0", "1", "2", "3", "5", "I", "len(AI)", "St.X", "-1", "(I + 4)", "(I - 9)") }
+	small := func() string {
+		return g.pick("0", "1", "2", "3", "5", "I", "len(AI)", "St.X", "-1", "(I + 4)", "(I - 9)")
+	}
 	if d <= 0 {
 		switch rng.Intn(6) {
 		case 0:
@@ -154,6 +156,24 @@ func runC06() {
 						cases = append(cases, coreCase(false, m.Cast, b, ei, tree, prog, r))
 					}
 				}
+				// the budget is PER RUN: the same program three times on one (reused) VM under budget need+1
+				if need >= 1 {
+					old := vm.MemoryBudget
+					vm.MemoryBudget = need + 1
+					v := &vm.VM{}
+					for k := 0; k < 3; k++ {
+						callLog = nil
+						out, rerr := v.Run(prog, e)
+						rep.Evaluations++
+						if rerr != nil || cqValue(out) != cqValue(ideal.out) || v.VerifMemory() != need {
+							rep.fail(Failure{Key: "C06-refused-below-budget", What: "a run that needs fewer elements than the budget was refused or changed its result (run " + fmt.Sprint(k+1) + " on one reused vm.VM)",
+								Input: map[string]interface{}{"src": src, "mode": m.Name, "env": ei, "budget": need + 1, "need": need, "reused_vm_run": k + 1},
+								Want:  "as the unbudgeted run: " + fmt.Sprint(ideal.out), Got: fmt.Sprintf("%v / %v (accounted %d)", out, rerr, v.VerifMemory())})
+							break
+						}
+					}
+					vm.MemoryBudget = old
+				}
 				// independent recount of what was created: every array/map/range built during evaluation
 				if m.Name == "untyped" {
 					if got := countCreated(ideal.out); got > need {
@@ -173,7 +193,9 @@ func runC06() {
 	rep.write()
 }
 
-func in2(src string, ei int) map[string]interface{} { return map[string]interface{}{"src": src, "env": ei} }
+func in2(src string, ei int) map[string]interface{} {
+	return map[string]interface{}{"src": src, "env": ei}
+}
 
 func bucket(n int) string {
 	switch {
